@@ -251,6 +251,10 @@ TOKEN_SPECIALS = [
     'MULTIPOLYGON(((0 0,4 0,4 4,0 0),(1 0.5,2 0.5,2 1.5,1 0.5)))', 'MULTIPOLYGON((0 0,1 0,1 1,0 0))', 'multipolygon(((0 0,1 0,1 1,0 0)))',
 ]
 
+# Z values of every magnitude the writer emits: positional (incl. 1000 <= |z| < 1e16, repair D33) and exponent form
+ZMAGS = [7.25, 1e-06, 999.75, -123.456, 1000.0, 1500.5, -8848.86, 12345.678, 99999.9, 1234567.125, 123456789012.5, 9007199254740993.0,
+         999999999999999.9, 1e+16, 1.5e+16, -2.5e+20, 1.7976931348623157e+308, 1e-05, 5e-324]
+
 ALPHABET = ['0', '7', '.', '-', ' ', ',', '(', ')', 'Z', 'x', '+']
 
 
@@ -366,7 +370,7 @@ def main():
         L = G.Enc(labels=True)
         vs = [(rng.choice(mags) if rng.random() < 0.7 else rng.uniform(-179, 179) * 10 ** -rng.randint(0, 9),
                max(-90.0, min(90.0, rng.choice(mags) if rng.random() < 0.7 else rng.uniform(-89, 89) * 10 ** -rng.randint(0, 9))),
-               rng.choice([None, None, 7.25, 1e-06, 999.75, -123.456])) for _ in range(rng.randint(1, 4))]
+               rng.choice([None, None] + ZMAGS)) for _ in range(rng.randint(1, 4))]
         kind = 'point' if len(vs) == 1 else rng.choice(['line', 'mpoint'])
         spec = {'kind': kind, 'dt': None, 'props': None}
         spec.update({'c': vs[0]} if kind == 'point' else {'vs' if kind == 'line' else 'cs': vs})
@@ -448,16 +452,14 @@ def main():
             add(f'KRead {tag} {wl} {reslit(r, lambda s: G.obs_geom(s, Q))}', {'op': 'read', 'kind': kind, 'text': text, 'origin': 'special'})
         r = guarded(lambda: parse_wkt(text))
         add(f'KParseTok {wl} {reslit(r, lambda s: G.obs_geom(s, Q))}', {'op': 'parse_tok', 'kind': 'parse', 'text': text, 'origin': 'special'})
-    # valid base texts.  The polygon / multilinestring / multipolygon gates backtrack exponentially on a failing
-    # match (nested quantifiers over digit runs that split in several ways; 1 s for a 4-vertex ring written with
-    # decimals), so those bases use integer-form numbers; decimal-form ones only in the thorough tier.
-    bases = [('TPoint', 'POINT(12.5 -3.25)'), ('TPoint', 'POINT(1.0 2.0 3.5)'), ('TLine', 'LINESTRING(0.0 0.0,1.5 1.0)'),
-             ('TMPoint', 'MULTIPOINT(0.0 0.0, 1.0 1.5)'), ('TPoly', 'POLYGON((0 0,4 0,0 4), (1 1,1 2,2 1))'),
-             ('TMLine', 'MULTILINESTRING((0 0,1 1), (2 2,3 3))'),
-             ('TMPoly', 'MULTIPOLYGON(((0 0,4 0,0 4)), ((9 9,8 9,9 8)))')]
-    if not quick:
-        bases += [('TLine', 'LINESTRING(0.0 0.0,1.5 1.0,2.0 -0.5)'), ('TPoly', 'POLYGON((0.0 0.0,4.0 0.0,0.0 4.0))'),
-                  ('TMPoly', 'MULTIPOLYGON(((0 0,4 0,0 4), (1 1,1 2,2 1)))')]
+    # valid base texts: the library's own text for one shape of each type, plus integer-form variants
+    bases = []
+    for spec in fixed_shapes():
+        spec.setdefault('dt', None)
+        spec.setdefault('props', None)
+        bases.append((TAG[spec['kind']], G.build(spec).to_wkt()))
+    bases += [('TPoly', 'POLYGON((0 0,4 0,0 4), (1 1,1 2,2 1))'), ('TMPoly', 'MULTIPOLYGON(((0 0,4 0,0 4)), ((9 9,8 9,9 8)))'),
+              ('TPoint', 'POINT Z (1 2 1500.5)')]
     for tag, base in bases:
         assert run_impl(lambda: SIMPLE[KIND_OF_TAG[tag]].from_wkt(base))[0] == 'Ok', base
     alphabet = ALPHABET if not quick else ['7', '.', '-', ' ', ',', '(', ')', 'Z']
@@ -518,6 +520,20 @@ def main():
                       'theorems': f'C13_{clause}', 'how_to_replay': 'bin/check C13 --replay <this file>'})
         reported += 1
 
+    # ---- regression for repair D33 (Z values of 1000 and above): a violation if it returns
+    for text, zs in (('POINT(1.0 2.0 1500.5)', [1500.5]), ('MULTIPOINT(6.5 0.1 12345.678, 1.0 0.5)', [12345.678, None]),
+                     ('LINESTRING(1.0 2.0 1000.0,3.0 4.0 123456789.25)', [1000.0, 123456789.25])):
+        r = guarded(lambda: parse_wkt(text))
+        got = None
+        if r[0] == 'Ok':
+            s_ = r[1]
+            cs = [s_.coordinate] if isinstance(s_, GeoPoint) else [p.coordinate for p in s_.geoshapes] if isinstance(s_, MultiGeoPoint) else s_.vertices
+            got = [c.z for c in cs]
+        if got != zs:
+            ck.violation({'kind': 'property-fails-on-implementation', 'clause': 'wkt_roundtrip',
+                          'detail': f'regression D33: parse_wkt({text!r}) gives z = {got if r[0] == "Ok" else r}, expected {zs}',
+                          'case': {'op': 'chars', 'text': text}, 'theorems': 'C13_z_four_digits_read_exactly'})
+
     # ---- deterministic replays of the known findings
     for f in ck.findings:
         if f.get('status') != 'open':
@@ -526,10 +542,6 @@ def main():
             c = f['replay']['c']
             p = GeoPoint(G.Cd(tuple(c)))
             if GeoPoint.from_wkt(p.to_wkt()) != p:
-                ck.known(f)
-        if f.get('signature') == 'z_four_digits':
-            p = GeoPoint.from_wkt(f['replay']['text'])
-            if p.coordinate.z != f['replay']['z']:
                 ck.known(f)
         if f.get('signature') == 'digit_run_split':
             r = guarded(lambda: GeoPoint.from_wkt(f['replay']['text']))
